@@ -50,6 +50,8 @@ def run(out, tier, seed):
             nontrivial += 1
         if len(samples) < 4 and (isunit or o.get("case", 0) % 9973 == 0):
             samples.append({k: o.get(k) for k in ("op", "a", "b", "method", "simple", "basic")})
+        if o.get("outcome") == "notrun":
+            continue
         if o.get("outcome") in ("hang", "abort", "harness_panic"):
             out.fail("NEW", "worker %s on a number operation" % o.get("outcome"), o)
     out.cov["distinct_nontrivial"] = nontrivial
